@@ -418,7 +418,7 @@ PLANTS = [
     P("for-load", "S", "for _i in []:\n    $" + LOAD, "loadplace", always),
     P("def-load", "S", "def _p():\n    $" + LOAD, "loadplace", always),
     P("loadname", "S", 'load("m.star", lc="$_c")', "loadname", always),
-    P("loadname-same", "S", 'load("m.star", "c", "$_lc")', "loadname", always),
+    P("loadname-same", "S", 'load("m.star", "f", "$_lc")', "loadname", always),
     P("loadname-ok", "S", 'load("m.star", _lc="$c")', "loadname", never),
     # if / for / while at top level; while at all
     P("tl-if", "S", "$if trace(0):\n    pass", "toplevel", tlc),
@@ -653,8 +653,13 @@ def build_cases(ctx, rnd):
     for k, (bname, text, slot, pl) in enumerate(progs):
         groups.setdefault((bname, pl["name"]), []).append(k)
     full = set()
+    byplant_groups = {}
     for key in sorted(groups):
-        full.add(rnd.choice(groups[key]))
+        byplant_groups.setdefault(key[1], []).append(key)
+    for name in sorted(byplant_groups):
+        keys = byplant_groups[name]
+        for key in rnd.sample(keys, min(len(keys), 4)):        # four bases per plant, one slot in each
+            full.add(rnd.choice(groups[key]))
     if ctx.quick:
         # every plant at one random position with all vectors, plus a seeded sample of the rest with a pairwise cover
         byplant = {}
@@ -698,7 +703,7 @@ UNIVERSAL_SPEC = {"None", "True", "False", "abs", "any", "all", "bool", "chr", "
 
 def record(c, r):
     """the TLC record of one program: observations keyed by n = id * 64 + mask"""
-    rec = {"id": c["id"], "parse_ok": r["parse_ok"], "pre": r["pre"], "pl": c["pl"], "obs": []}
+    rec = {"id": c["id"], "parse_ok": r["parse_ok"], "pre": r["pre"], "pl": c["pl"], "fx": c["src"].startswith("trace("), "obs": []}
     if r["parse_ok"]:
         rec["ast"] = r["ast"]
     for run in r["runs"]:
@@ -758,7 +763,7 @@ def static_part(ctx, rnd):
     return nobs, active
 
 
-def report_static(ctx, bad, byid, res):
+def report_static(ctx, bad, byid, res, corpus=False):
     """re-execute each rejected observation alone, classify it with the diagnostic variant, report"""
     groups = {}
     for n in bad:
@@ -776,25 +781,98 @@ def report_static(ctx, bad, byid, res):
                 run2 = [r for r in res2[c["id"]]["runs"] if r["m"] == run1["m"]][0]
                 if (run1["errors"], run1["static"], run1["ok"], run1["effects"]) != (run2["errors"], run2["static"], run2["ok"], run2["effects"]):
                     raise vlib.MachineryError("observation %d/%d not reproducible" % (c["id"], run1["m"]))
-        recs2.append(record(c, res2[c["id"]]))
+        rec = record(c, res2[c["id"]])
+        if corpus:
+            rec["pre"] = rec["pre"] + sorted(set(res2[c["id"]]["universe"]) - UNIVERSAL_SPEC)
+        recs2.append(rec)
     f = ctx.path("recs-relax.ndjson")
     vlib.write_ndjson(f, recs2)
-    bad2, _ = ctx.validate("C09Trace", "C09Trace.cfg", [f], env={"VERIF_C09_RELAX": "1"})
-    still = {b for b in bad2 if b > 0}
+    # diagnostic runs: why each observation is rejected; does the known deviation (load over a global) explain it
+    def diag(relax):
+        env = {"VERIF_RECS": f}
+        if relax:
+            env["VERIF_C09_RELAX"] = "1"
+        r = ctx.tlc("C09Trace", "C09Trace.cfg", env=env, workers=4, heap="4g", timeout=1200)
+        if r["error"] or r["rc"] != 0 or not any("CHECKED" in l for l in r["printed"]):
+            raise vlib.MachineryError("diagnostic TLC run failed\n" + r["out"][-2000:])
+        out = {}
+        for l in r["printed"]:
+            m_ = re.match(r'<<"BAD", (-?\d+)(?:, "([a-z-]+)", \{(.*)\})?>>', l)
+            if m_ and int(m_.group(1)) > 0 and m_.group(2) is None:
+                out[int(m_.group(1))] = "parser-rejection"
+            elif m_ and int(m_.group(1)) > 0:
+                out[int(m_.group(1))] = "%s:%s" % (m_.group(2), "+".join(sorted(x.strip().strip('"') for x in m_.group(3).split(",") if x.strip())))
+        return out
+    strict, still = diag(False), diag(True)
     for c in recheck:
         for m in c["masks"]:
             n = c["id"] * 64 + m
             run = [r for r in res2[c["id"]]["runs"] if r["m"] == m][0]
+            if n not in strict:
+                raise vlib.MachineryError("observation %d rejected only in the first TLC run" % n)
             if n not in still:
                 sig = "reassign:load-over-global"
+            elif not res2[c["id"]]["parse_ok"]:
+                sig = "static:parser-rejection"
             else:
-                sig = "static:%s/%s" % (c["pl"]["rule"], "accepted" if not run["static"] else "rejected")
+                sig = "static:" + strict[n].rstrip(":")
             what = "[%s] %s in %s/%s: errors=%s static=%s effects=%d | %s" % (
                 ",".join(n_ for n_, v in O(m).rec().items() if v) or "no options", c["plant"], c["base"], c["slot"],
                 json.dumps([(e["line"], e["col"], e["msg"]) for e in run["errors"]]), run["static"], run["effects"],
                 c["src"].replace("\n", "; ")[:300])
-            ctx.violation(sig, what, {"kind": "static", "case": {"id": c["id"], "src": c["src"], "pl": c["pl"], "masks": [m], "act": {str(m): c["act"][m]} if c["act"] else None,
+            ctx.violation(sig, what, {"kind": "corpus" if corpus else "static", "case": {"id": c["id"], "src": c["src"], "pl": c["pl"], "masks": [m], "act": {str(m): c["act"][m]} if c["act"] else None,
                                                                    "base": c["base"], "slot": c["slot"], "plant": c["plant"]}})
+
+
+def corpus_part(ctx, rnd):
+    """the repository's own test programs (chunks of resolve/, starlark/ and syntax/ testdata) under option vectors:
+    whatever they contain, the front end and the oracle must agree"""
+    import glob, os
+    files = [os.path.join(vlib.REPO, "resolve/testdata/resolve.star")] + sorted(glob.glob(os.path.join(vlib.REPO, "starlark/testdata/*.star"))) \
+        + sorted(glob.glob(os.path.join(vlib.REPO, "syntax/testdata/*.star")))
+    cases = []
+    for fn in files:
+        chunks, cur = [], []
+        for line in open(fn, encoding="utf-8", errors="replace").read().split("\n"):
+            if line == "---":
+                chunks.append("\n".join(cur))
+                cur = []
+            else:
+                cur.append(line)
+        chunks.append("\n".join(cur))
+        for k, ch in enumerate(chunks):
+            if not ch.isascii() or not ch.strip():
+                continue            # columns are counted in bytes by the scanner and in characters here
+            allv = (not ctx.quick) or "resolve" in fn
+            cases.append({"base": os.path.relpath(fn, vlib.REPO), "slot": "chunk %d" % k, "plant": "-", "src": ch + "\n", "pl": {"rule": "none", "p": [0, 0]},
+                          "masks": list(range(64)) if allv else covering_masks(rnd), "act": None})
+    if len(cases) < 100:
+        raise vlib.MachineryError("testdata corpus not found")
+    for i, c in enumerate(cases):
+        c["id"] = 100000 + i
+    res = front(ctx, cases, "corpus")
+    recs = []
+    for c in cases:
+        r = res[c["id"]]
+        rec = record(c, r)
+        # names the implementation's universe has beyond spec.md (bytes) count as predeclared by the application
+        rec["pre"] = r["pre"] + sorted(set(r["universe"]) - UNIVERSAL_SPEC)
+        recs.append(rec)
+    f = ctx.path("corpus.ndjson")
+    vlib.write_ndjson(f, recs)
+    bad, checked = ctx.validate("C09Trace", "C09Trace.cfg", [f], heap="8g")
+    if checked != len(recs):
+        raise vlib.MachineryError("TLC checked %d of %d corpus records" % (checked, len(recs)))
+    bad = sorted({b for b in bad if b > 0})
+    nobs = sum(len(c["masks"]) for c in cases)
+    ctx.log("corpus: %d chunks of the repository's testdata / %d observations validated, %d rejected" % (len(cases), nobs, len(bad)))
+    if bad:
+        report_static(ctx, bad, {c["id"]: c for c in cases}, res, corpus=True)
+    ctx.cov["corpus_chunks"] = len(cases)
+    ctx.cov["corpus_observations"] = nobs
+    rej = len({(c["src"], run["m"]) for c in cases for run in res[c["id"]]["runs"] if run["static"]})
+    ctx.cov["corpus_rejected_observations"] = rej
+    return nobs, rej
 
 
 # ------------------------------------------------------------------------------------- recursion
@@ -837,8 +915,8 @@ def recursion_part(ctx, rnd):
                 ("general", 3, 2, 3, ["call", "twice", "sorted"])]
     else:
         cfgs = [("lasso", 4, 1, 4, ["call", "lambda", "twice", "sorted", "min", "max"]),
-                ("general", 3, 2, 4, ["call", "lambda", "twice", "sorted", "min", "max"]),
-                ("general4", 4, 2, 4, ["call", "lambda", "twice", "max"])]
+                ("general", 3, 2, 4, ["call", "lambda", "twice", "sorted"]),
+                ("general4", 4, 2, 4, ["call", "twice", "max"])]
     graphs = []
     for name, maxf, maxout, maxe, kinds in cfgs:
         cfg = ("CONSTANTS\n  MaxF = %d\n  MaxOut = %d\n  MaxE = %d\n  Depth = %d\n  Kinds = {%s}\n"
@@ -921,10 +999,11 @@ def compare_rec(g, r):
 def run(ctx):
     rnd = random.Random(ctx.seed)
     nobs, active = static_part(ctx, rnd)
+    cobs, crej = corpus_part(ctx, rnd)
     nruns, nfail = recursion_part(ctx, rnd)
-    ctx.cov["evaluations"] = nobs + nruns
-    ctx.cov["traces_validated_against_impl"] = nobs + nruns - len(ctx.violations)
-    ctx.cov["distinct_nontrivial"] = active + nfail     # both counted over distinct (program text, options) pairs
+    ctx.cov["evaluations"] = nobs + cobs + nruns
+    ctx.cov["traces_validated_against_impl"] = nobs + cobs + nruns - len(ctx.violations)
+    ctx.cov["distinct_nontrivial"] = active + crej + nfail     # both counted over distinct (program text, options) pairs
     ctx.assumptions = [
         "Resolve.tla is written from doc/spec.md; the position of a violation is the first token or the operator token of the offending construct",
         "with GlobalReassign a use directly in the file block sees only earlier top-level bindings (documented in resolve.go, func use)",
@@ -934,8 +1013,9 @@ def run(ctx):
     ]
     return ctx.finish(
         rule="static: %d base programs with %d slots x %d planted constructs (every applicable combination in the thorough tier, a seeded sample in the quick "
-             "tier), each under all 64 FileOptions vectors (one slot per base x plant, and the plain bases) or a seeded pairwise-covering set of 8; an observation "
+             "tier), each under all 64 FileOptions vectors (the plain bases and, per planted construct, one slot in each of four bases; quick tier: one) or a seeded pairwise-covering set of 8; an observation "
              "is non-trivial when the planted construct is a violation under that vector (it must then be reported at its position and nothing may run). "
+             "corpus: every ASCII chunk of resolve/, starlark/ and syntax/ testdata under option vectors; non-trivial = rejected statically. "
              "recursion: every call graph emitted by C09MC, run with Recursion off and on; non-trivial = the run re-enters an active function"
              % (len(BASES), ctx.cov.get("slots", 0), len(PLANTS)),
         exhaustive=False)
@@ -955,6 +1035,8 @@ def replay(ctx, path):
     c["act"] = {int(k): v for k, v in c["act"].items()} if c.get("act") else None
     res = front(ctx, [c], "replay")
     rec = record(c, res[c["id"]])
+    if d["kind"] == "corpus":
+        rec["pre"] = rec["pre"] + sorted(set(res[c["id"]]["universe"]) - UNIVERSAL_SPEC)
     f = ctx.path("replay.ndjson")
     vlib.write_ndjson(f, [rec])
     bad, _ = ctx.validate("C09Trace", "C09Trace.cfg", [f])
